@@ -59,9 +59,26 @@ def order_tags(prog):
         for b in s_blocks(s):
             for x in b:
                 vs(x)
+    def writes(b, base):
+        for s in b:
+            if s.k in ("assign", "aug") and s.base[:2] == base[:2]:
+                return True
+            if any(writes(x, base) for x in s_blocks(s)):
+                return True
+        return False
+
+    def vb(b):
+        for i, s in enumerate(b):
+            if s.k == "assign" and not s.path:
+                for s2 in b[i + 1:i + 3]:
+                    if s2.k in ("for", "fordyn", "forin") and writes(s2.body, s.base):
+                        tags.add("loop-store-forwarding")
+            for x in s_blocks(s):
+                vb(x)
     for f in prog.ints + prog.exts:
         for s in f.body:
             vs(s)
+        vb(f.body)
     return tags
 
 
@@ -70,7 +87,10 @@ def report_diff(ctx, it, cfg, diff, other_cfgs_agree=None):
     prog, calls = it["prog"], it["calls"]
     t0 = time.time()
     try:
-        sp, sc, sd = shrink(prog, calls, cfg, diff["what"], budget_s=60 if ctx.tier == "quick" else 180)
+        if it.get("key"):
+            sp, sc, sd = prog, calls, None      # already minimal
+        else:
+            sp, sc, sd = shrink(prog, calls, cfg, diff["what"], budget_s=60 if ctx.tier == "quick" else 180)
     except Exception as e:  # shrinking is best effort
         ctx.log(f"shrink failed: {type(e).__name__}: {e}")
         sp, sc, sd = prog, calls, None
@@ -91,22 +111,58 @@ def report_diff(ctx, it, cfg, diff, other_cfgs_agree=None):
         pipe = "venom" if cfg.venom else "legacy"
         key = f"C01:{sd['what']}:{cfg.name}"
         if len(tags) == 1:
-            # the shrunk program is an instance of an evaluation-order shape that C08 reports with its own key
-            key = f"C01:{pipe}:order:{sorted(tags)[0]}"
+            # the shrunk program is an instance of a shape with a known root cause: stable key per (pipeline, shape)
+            tag = sorted(tags)[0]
+            key = f"C01:{pipe}:{tag}" if tag == "loop-store-forwarding" else f"C01:{pipe}:order:{tag}"
+        if it.get("key"):
+            key = it["key"]
         detail["order_sensitive_shapes"] = sorted(tags)
         ctx.violation("failing-input", f"compiled bytecode disagrees with source semantics ({sd['what']}) under {cfg.name}",
                       detail, key=key)
 
 
+def regress_items():
+    """minimized past failures as VyCore programs (run first, same comparison as the generated ones)"""
+    from vlib.c01_ast import E, S, Fun, Program, U256
+    I256 = ("int", 256, True)
+    U8 = ("int", 8, False)
+    out = []
+    # venom: `self.s = a; for ..: self.s += a` computed `self.s += self.s` (store->load forwarding across the loop back-edge)
+    p = Program()
+    p.events = [("Ev0", [("x", U256)])]
+    p.sto = [("s1", U256), ("s2", I256)]
+    a = E("var", U256, name="a0", id=0)
+    p.exts.append(Fun("f1", [("a0", U256)], U256, [
+        S("assign", base=("sto", "s1", 0), path=[], e=a, decl=None),
+        S("for", name="v0", id=1, vty=U8, start=0, n=2, body=[S("aug", op="Add", ty=U256, base=("sto", "s1", 0), path=[], e=a)]),
+        S("return", e=E("self", U256, name="s1", id=0))], True))
+    b = E("var", I256, name="a0", id=0)
+    s2 = E("self", I256, name="s2", id=1)
+    p.exts.append(Fun("f2", [("a0", I256)], I256, [
+        S("assign", base=("sto", "s2", 1), path=[], e=b, decl=None),
+        S("for", name="v0", id=1, vty=U8, start=0, n=3,
+          body=[S("assign", base=("sto", "s2", 1), path=[], e=E("bin", I256, op="Sub", a=E("neg", I256, a=s2), b=b), decl=None)]),
+        S("return", e=s2)], True))
+    calls = [H.Call(0, [5]), H.Call(1, [(-6) % 2 ** 256]), H.Call(0, [0]), H.Call(1, [7])]
+    out.append({"prog": p, "calls": calls, "name": "venom-loop-store-forwarding", "key": "C01:venom:loop-store-forwarding"})
+    return out
+
+
 def differential(ctx, n_prog, cfgs, salt="gen", features=None):
     t0 = time.time()
     items, stats = D.generate(ctx, salt, n_prog, features=features, ncalls=8)
+    reg = regress_items()
+    for it, m in zip(reg, H.model_eval([(r["prog"], r["calls"]) for r in reg], "c01reg")):
+        it["model"] = m
+    items = reg + items
+    stats["regression_programs"] = [r["name"] for r in reg]
     t_gen = time.time() - t0
     obs = D.observe_all(items, cfgs, procs=3)
     n_cmp = 0
     n_calls = 0
     rejected = {}
     reported = 0
+    reg_reported = set()
     for i, it in enumerate(items):
         for j, cfg in enumerate(cfgs):
             if not D.cfg_applicable(it["prog"], cfg):
@@ -124,8 +180,13 @@ def differential(ctx, n_prog, cfgs, salt="gen", features=None):
             n_cmp += 1
             n_calls += len(it["calls"])
             d = H.compare(it["prog"], it["calls"], it["model"], o)
-            if d is not None and reported < 3:
-                reported += 1
+            if d is not None and (reported < 3 or (it.get("key") and it["key"] not in reg_reported)):
+                if it.get("key"):
+                    if it["key"] in reg_reported:
+                        continue
+                    reg_reported.add(it["key"])
+                else:
+                    reported += 1
                 report_diff(ctx, it, cfg, d)
     stats["revert"] = D.revert_stats(items)
     stats["compile_rejections_by_config"] = rejected
